@@ -381,6 +381,18 @@ func Apply(pj *simdjson.ParsedJson, o Op, readVal func(it *simdjson.Iter) (abs.V
 			visits = append(visits, Visit{Val: v})
 			return o.Sel[n]
 		})
+		// the same Array value afterwards counts what a fresh view counts
+		if inner == nil {
+			count := func(a *simdjson.Array) (c int) { a.ForEach(func(simdjson.Iter) { c++ }); return }
+			same := count(arr)
+			if it2, nerr := Nav(pj, o.Path); nerr == nil {
+				if fresh, ferr := it2.Array(nil); ferr == nil {
+					if want := count(fresh); same != want {
+						inner = fmt.Errorf("the Array used for DeleteElems has %d elements afterwards, a fresh view %d", same, want)
+					}
+				}
+			}
+		}
 		return false, visits, inner
 	case "delO":
 		obj, oerr := it.Object(nil)
@@ -410,6 +422,24 @@ func Apply(pj *simdjson.ParsedJson, o Op, readVal func(it *simdjson.Iter) (abs.V
 		}
 		if derr := obj.DeleteElems(fn, only); derr != nil {
 			return true, visits, nil
+		}
+		// DeleteElems does not consume the Object (like ForEach): the SAME value afterwards lists exactly what a view taken
+		// afresh lists
+		if inner == nil {
+			listKeys := func(ob *simdjson.Object) (ks []string, err error) {
+				err = ob.ForEach(func(key []byte, _ simdjson.Iter) { ks = append(ks, string(key)) }, nil)
+				return
+			}
+			same, serr := listKeys(obj)
+			it2, nerr := Nav(pj, o.Path)
+			if nerr == nil {
+				if fresh, ferr := it2.Object(nil); ferr == nil {
+					want, werr := listKeys(fresh)
+					if serr != nil || werr != nil || fmt.Sprint(same) != fmt.Sprint(want) {
+						inner = fmt.Errorf("the Object used for DeleteElems lists %q afterwards (%v); a fresh view lists %q (%v)", same, serr, want, werr)
+					}
+				}
+			}
 		}
 		return false, visits, inner
 	}
